@@ -72,6 +72,11 @@ func ruleRecState(c *Ctx) {
 		"execActions": "takes over the fields the CSV splitter produced for the record just read ($0 was set by setLine)",
 		"setLine":     "replaces $0 itself",
 	}
+	for g := range c.exclusiveRegion("interp", c.ssaFunc("interp", "interp.execActions")) {
+		if rebuildExempt[g.Name()] == "" {
+			rebuildExempt[g.Name()] = "a helper of execActions alone: " + rebuildExempt["execActions"]
+		}
+	}
 	if ef := c.ssaFunc("interp", "interp.ensureFields"); ef != nil {
 		seenF := map[*ssa.Function]bool{}
 		var walkF func(f *ssa.Function)
@@ -91,79 +96,128 @@ func ruleRecState(c *Ctx) {
 		}
 		walkF(ef)
 	}
-	var rebuildFns []string
+	// Interprocedural: a function is "dirty" when it can return successfully after a store into the field slices (its
+	// own, or made by a dirty function it calls) that is not followed by `p.line = p.joinFields(p.fields)` (its own, or
+	// made on every path by a function it calls). A dirty helper is fine as long as every caller rebuilds $0 after
+	// calling it; dirtiness that reaches a function with no caller left to do so is the violation, reported at the
+	// function whose own store starts the chain.
+	type rbWitness struct {
+		ret  *ssa.Return
+		from ssa.Instruction
+	}
+	isElemStore := func(in ssa.Instruction) bool {
+		st, ok := in.(*ssa.Store)
+		if !ok {
+			return false
+		}
+		if name, val := interpFieldStore(in); name == "fields" || name == "fieldsIsTrueStr" {
+			// clearing the slices (nil, or x[:0]) is a reset, wherever it is done; anything else is an assignment
+			clearing := isNilConst(val)
+			if sl, ok := val.(*ssa.Slice); ok && sl.Low == nil && sl.High != nil {
+				if k, ok := sl.High.(*ssa.Const); ok && k.Value != nil && k.Value.ExactString() == "0" {
+					clearing = true
+				}
+			}
+			return !clearing
+		}
+		if ia, ok := st.Addr.(*ssa.IndexAddr); ok {
+			if n := interpFieldLoad(ia.X); n == "fields" || n == "fieldsIsTrueStr" {
+				return true
+			}
+		}
+		return false
+	}
+	isLineStore := func(in ssa.Instruction) bool {
+		if name, val := interpFieldStore(in); name == "line" {
+			if call, ok := val.(*ssa.Call); ok && call.Call.StaticCallee() != nil && call.Call.StaticCallee().Name() == "joinFields" {
+				return true
+			}
+		}
+		return false
+	}
+	var cands []*ssa.Function
 	for _, fn := range fns {
-		if fn.Parent() != nil || rebuildExempt[fn.Name()] != "" {
+		if fn.Parent() != nil || rebuildExempt[fn.Name()] != "" || len(fn.Blocks) == 0 {
 			continue
 		}
-		stores := false
-		allInstrs(fn, func(in ssa.Instruction) {
-			st, ok := in.(*ssa.Store)
-			if !ok {
-				return
+		cands = append(cands, fn)
+	}
+	isCand := map[*ssa.Function]bool{}
+	for _, fn := range cands {
+		isCand[fn] = true
+	}
+	// rebuilders: a rebuild happens on every path from entry to a return
+	rebuilder := map[*ssa.Function]bool{}
+	for changed := true; changed; {
+		changed = false
+		for _, fn := range cands {
+			if rebuilder[fn] {
+				continue
 			}
-			if name, val := interpFieldStore(in); name == "fields" || name == "fieldsIsTrueStr" {
-				// clearing the slices (nil, or x[:0]) is a reset, wherever it is done; anything else is an assignment
-				clearing := isNilConst(val)
-				if sl, ok := val.(*ssa.Slice); ok && sl.Low == nil && sl.High != nil {
-					if k, ok := sl.High.(*ssa.Const); ok && k.Value != nil && k.Value.ExactString() == "0" {
-						clearing = true
+			var rets []*ssa.BasicBlock
+			for _, b := range fn.Blocks {
+				if len(b.Instrs) > 0 {
+					if _, ok := b.Instrs[len(b.Instrs)-1].(*ssa.Return); ok {
+						rets = append(rets, b)
 					}
 				}
-				if !clearing {
-					stores = true
+			}
+			for _, b := range fn.Blocks {
+				all := len(rets) > 0
+				for _, r := range rets {
+					if !b.Dominates(r) {
+						all = false
+					}
+				}
+				if !all {
+					continue
+				}
+				for _, in := range b.Instrs {
+					if isLineStore(in) {
+						rebuilder[fn] = true
+					}
+					if ci, ok := in.(ssa.CallInstruction); ok {
+						if g := ci.Common().StaticCallee(); g != nil && rebuilder[g] {
+							rebuilder[fn] = true
+						}
+					}
 				}
 			}
-			if ia, ok := st.Addr.(*ssa.IndexAddr); ok {
-				if n := interpFieldLoad(ia.X); n == "fields" || n == "fieldsIsTrueStr" {
-					stores = true
-				}
-			}
-		})
-		if stores {
-			if fn.Signature.Recv() != nil {
-				rebuildFns = append(rebuildFns, "interp."+fn.Name())
-			} else {
-				rebuildFns = append(rebuildFns, fn.Name())
+			if rebuilder[fn] {
+				changed = true
 			}
 		}
 	}
-	sort.Strings(rebuildFns)
-	c.atLeast("functions assigning into the field slices", len(rebuildFns), 2)
-	for _, fname := range rebuildFns {
-		fn := c.ssaFunc("interp", fname)
-		if fn == nil {
-			c.undecided("anchor:"+fname, token.NoPos, "%s not found", fname)
-			continue
-		}
-		// blocks containing a store to line / a store into fields or fieldsIsTrueStr (field or element)
+	dirty := map[*ssa.Function][]rbWitness{}
+	direct := map[*ssa.Function]bool{}
+	analyse := func(fn *ssa.Function) (wits []rbWitness, nRet int, okRets []*ssa.Return) {
 		var lineStores, elemStores []ssa.Instruction
 		allInstrs(fn, func(in ssa.Instruction) {
-			st, ok := in.(*ssa.Store)
-			if !ok {
-				return
-			}
-			if name, val := interpFieldStore(in); name == "line" {
-				if call, ok := val.(*ssa.Call); ok && call.Call.StaticCallee() != nil && call.Call.StaticCallee().Name() == "joinFields" {
-					lineStores = append(lineStores, in)
-				}
-				return
-			} else if name == "fields" || name == "fieldsIsTrueStr" {
+			switch {
+			case isLineStore(in):
+				lineStores = append(lineStores, in)
+			case isElemStore(in):
 				elemStores = append(elemStores, in)
-				return
-			}
-			if ia, ok := st.Addr.(*ssa.IndexAddr); ok {
-				if n := interpFieldLoad(ia.X); n == "fields" || n == "fieldsIsTrueStr" {
-					elemStores = append(elemStores, in)
+				direct[fn] = true
+			default:
+				if ci, ok := in.(ssa.CallInstruction); ok {
+					if g := ci.Common().StaticCallee(); g != nil && g != fn {
+						if rebuilder[g] {
+							lineStores = append(lineStores, in)
+						} else if len(dirty[g]) > 0 {
+							elemStores = append(elemStores, in)
+						}
+					}
 				}
 			}
 		})
 		if len(elemStores) == 0 {
-			c.undecided("rebuild:"+fname, fn.Pos(), "no store into the field slices found in %s", fname)
-			continue
+			return
 		}
-		// every success return reachable from an element store must be dominated by a line store that comes after it
-		nRet := 0
+		lineBlk := map[*ssa.BasicBlock]bool{}
+		for _, ls := range lineStores {
+			lineBlk[ls.Block()] = true
+		}
 		for _, b := range fn.Blocks {
 			if len(b.Instrs) == 0 {
 				continue
@@ -172,18 +226,19 @@ func ruleRecState(c *Ctx) {
 			if !ok {
 				continue
 			}
+			// a success return: no error result, or a nil one
 			rr := retResults(ret)
-			if len(rr) == 0 || !isNilConst(rr[len(rr)-1]) {
-				continue
+			if len(rr) > 0 {
+				if _, isErr := rr[len(rr)-1].Type().Underlying().(*types.Interface); isErr && types.TypeString(rr[len(rr)-1].Type(), nil) == "error" && !isNilConst(rr[len(rr)-1]) {
+					continue
+				}
 			}
-			// is there a path from a field store to this return that avoids every `line = joinFields(...)` store?
 			var from ssa.Instruction
 			reachedAny := false
 			for _, es := range elemStores {
 				if es.Block() == b || reachableFromStrict(es.Block())[b] {
 					reachedAny = true
 				}
-				// a line store later in the same block covers this store
 				covered := false
 				for _, ls := range lineStores {
 					if ls.Block() == es.Block() && instrIndex(ls.Block(), ls) > instrIndex(es.Block(), es) {
@@ -192,10 +247,6 @@ func ruleRecState(c *Ctx) {
 				}
 				if covered {
 					continue
-				}
-				lineBlk := map[*ssa.BasicBlock]bool{}
-				for _, ls := range lineStores {
-					lineBlk[ls.Block()] = true
 				}
 				seen := map[*ssa.BasicBlock]bool{}
 				var walk func(x *ssa.BasicBlock)
@@ -222,17 +273,79 @@ func ruleRecState(c *Ctx) {
 				continue
 			}
 			nRet++
-			rebuilt := from == nil
-			// lineIsTrueStr = true must accompany
-			key := fmt.Sprintf("rebuild:%s:return@%s", fname, blockKey(b))
-			if rebuilt {
-				c.ok(key, ret.Pos(), "$0 is rebuilt from the fields before this return")
+			if from != nil {
+				wits = append(wits, rbWitness{ret, from})
 			} else {
-				c.bad(key, ret.Pos(), "%s returns successfully after storing into the field slices (%s) without `p.line = p.joinFields(p.fields)`: $0 and the fields disagree", fname, c.relPos(from.Pos()))
+				okRets = append(okRets, ret)
+			}
+		}
+		return
+	}
+	for changed := true; changed; {
+		changed = false
+		for _, fn := range cands {
+			w, _, _ := analyse(fn)
+			if len(w) != len(dirty[fn]) {
+				dirty[fn] = w
+				changed = true
+			}
+		}
+	}
+	// callers within the candidate set
+	callersOf := map[*ssa.Function][]*ssa.Function{}
+	for _, fn := range cands {
+		fn := fn
+		allInstrs(fn, func(in ssa.Instruction) {
+			if ci, ok := in.(ssa.CallInstruction); ok {
+				if g := ci.Common().StaticCallee(); g != nil && isCand[g] && g != fn {
+					callersOf[g] = append(callersOf[g], fn)
+				}
+			}
+		})
+	}
+	// does the dirtiness of fn reach a function that nobody cleans up after?
+	var escapes func(fn *ssa.Function, seen map[*ssa.Function]bool) bool
+	escapes = func(fn *ssa.Function, seen map[*ssa.Function]bool) bool {
+		if seen[fn] {
+			return false
+		}
+		seen[fn] = true
+		if len(callersOf[fn]) == 0 {
+			return true
+		}
+		for _, cl := range callersOf[fn] {
+			if len(dirty[cl]) > 0 && escapes(cl, seen) {
+				return true
+			}
+		}
+		return false
+	}
+	nFns := 0
+	for _, fn := range cands {
+		if !direct[fn] {
+			continue
+		}
+		nFns++
+		fname := fn.Name()
+		if fn.Signature.Recv() != nil {
+			fname = "interp." + fn.Name()
+		}
+		wits, nRet, okRets := analyse(fn)
+		for _, r := range okRets {
+			c.ok(fmt.Sprintf("rebuild:%s:return@%s", fname, blockKey(r.Block())), r.Pos(), "$0 is rebuilt from the fields before this return")
+		}
+		esc := len(wits) > 0 && escapes(fn, map[*ssa.Function]bool{})
+		for _, w := range wits {
+			key := fmt.Sprintf("rebuild:%s:return@%s", fname, blockKey(w.ret.Block()))
+			if esc {
+				c.bad(key, w.ret.Pos(), "%s returns successfully after storing into the field slices (%s) without `p.line = p.joinFields(p.fields)`, and not every caller does it afterwards: $0 and the fields disagree", fname, c.relPos(w.from.Pos()))
+			} else {
+				c.ok(key, w.ret.Pos(), "a helper: every caller rebuilds $0 from the fields after calling it")
 			}
 		}
 		c.atLeast("success returns of "+fname+" after a field store", nRet, 1)
 	}
+	c.atLeast("functions assigning into the field slices", nFns, 2)
 
 	// ---- ALIAS
 	nAlias := 0
@@ -327,7 +440,9 @@ func ruleRecState(c *Ctx) {
 						root = root.Parent()
 					}
 					readers = append(readers, root.Name())
-					if root.Name() != "execActions" {
+					// execActions itself, or a helper that only it calls (the taking-over of a record moved into a
+					// method of its own)
+					if root.Name() != "execActions" && !c.exclusiveRegion("interp", c.ssaFunc("interp", "interp.execActions"))[root] {
 						badPos = posOr(in.Pos(), fn.Pos())
 					}
 				}
